@@ -33,6 +33,12 @@ func (prog *Progress) init() {
 	if prog.Cfg == nil {
 		prog.Cfg = &Config{}
 	}
+	if prog.Cfg.Ctx == nil || prog.Cfg.LinkTargetNodePrototypeChooser == nil {
+		// Fill in the defaults on a copy: the Config may be shared between goroutines,
+		// and must not be written through.
+		cfg := *prog.Cfg
+		prog.Cfg = &cfg
+	}
 	prog.Cfg.init()
 	if prog.Cfg.LinkVisitOnlyOnce {
 		prog.SeenLinks = make(map[datamodel.Link]struct{})
